@@ -93,7 +93,7 @@ def witnesses(tier, seed):
                 if fn.startswith('m') and fn not in ('min', 'max'):
                     continue
                 if n % 3 == seed % 3 or not quick:
-                    if fn != 'inner':
+                    if fn != 'inner' and not (fn == 'product' and n > 14):   # the product of n binomials has 2^n terms
                         W.append(mk(t, [n], fn, 'expr'))
         for n in ([1, 2, 3, 5, 8, 9, 12] if quick else range(1, 13)):
             for fn in ('all_of', 'any_of', 'none_of'):
